@@ -708,6 +708,70 @@ func runScopePrograms(env *common.Env, rep *common.Report, p *pool) (n int) {
 }
 
 // ---------------------------------------------------------------------------------------
+// the literal universe of spec/C11/PipelineLiterals.tla: every prefix x quote x body of up to MaxPieces pieces
+// (plain characters of 1..4 bytes, complete and truncated escapes, quotes, line breaks, a lone backslash),
+// rendered from the shared piece table spec/C11/litpieces.ndjson; each literal is compiled alone and as a call operand.
+
+func runLiterals(env *common.Env, rep *common.Report, p *pool) (n int) {
+	f, err := os.Open(filepath.Join(env.Verif, "spec", "C11", "litpieces.ndjson"))
+	if err != nil {
+		common.Inconclusive("property=C11 literal pieces: %v", err)
+	}
+	var pieces [][]byte
+	dec := json.NewDecoder(f)
+	for dec.More() {
+		var it struct {
+			ID  int    `json:"id"`
+			Hex string `json:"hex"`
+		}
+		if err := dec.Decode(&it); err != nil || it.ID != len(pieces)+1 {
+			common.Inconclusive("property=C11 literal pieces: unreadable or out of order (%v)", err)
+		}
+		b, err := hex.DecodeString(it.Hex)
+		if err != nil {
+			common.Inconclusive("property=C11 literal pieces: %v", err)
+		}
+		pieces = append(pieces, b)
+	}
+	f.Close()
+	bad := 0
+	res := env.MustTLC(common.TLCRun{Dir: "C11", Module: "PipelineLiterals", Config: "literals_" + env.Tier + ".cfg", Timeout: 12 * time.Minute,
+		OnLine: func(rec []byte) {
+			var c struct {
+				Pre  string `json:"pre"`
+				Qt   string `json:"qt"`
+				Body []int  `json:"body"`
+			}
+			if err := json.Unmarshal(rec, &c); err != nil || c.Qt == "" {
+				bad++
+				return
+			}
+			var b strings.Builder
+			b.WriteString(c.Pre + c.Qt)
+			for _, i := range c.Body {
+				if i < 1 || i > len(pieces) {
+					bad++
+					return
+				}
+				b.Write(pieces[i-1])
+			}
+			b.WriteString(c.Qt)
+			lit := b.String()
+			n++
+			if n%20000 == 7 {
+				rep.Sample(map[string]interface{}{"kind": "literal (spec/C11/PipelineLiterals)", "source": show(lit)})
+			}
+			p.jobs <- job{src: lit, lex: lexClaim{Lex: "none"}, origin: "literal of spec/C11/PipelineLiterals"}
+			p.jobs <- job{src: "print(" + lit + ")\n", lex: lexClaim{Lex: "none"}, origin: "literal of spec/C11/PipelineLiterals as a call operand"}
+		}})
+	rep.AddTLC(res)
+	if bad > 0 || n == 0 || !res.Finished || len(res.Violations) > 0 {
+		common.Inconclusive("property=C11 literal generation failed (%d unreadable records, %d literals, %v)\n%s", bad, n, res.Violations, res.Stdout)
+	}
+	return n
+}
+
+// ---------------------------------------------------------------------------------------
 // grammar-shaped VALID programs: the bounded random statement / expression trees of
 // spec/C06/PyGrammarGen.tla in two spellings each (they parse by construction, so all of them
 // reach the symbol table and most of them code generation and the assembler).
@@ -931,6 +995,8 @@ func main() {
 	lap("scope_programs_done_at")
 	nGrammar := runGrammarPrograms(env, rep, p)
 	lap("grammar_programs_done_at")
+	nLit := runLiterals(env, rep, p)
+	lap("literals_done_at")
 	// 3. mutations of the repository's .py files
 	files, mutants := runMutations(env, rep, p, alpha, env.Pick(12, 150))
 	p.finish()
@@ -947,7 +1013,7 @@ func main() {
 	rep.Rule = "cases = source texts: every sequence of 1.." + strconv.Itoa(env.Pick(2, 3)) + " items of the " + strconv.Itoa(len(alpha)) +
 		"-item alphabet (spec/C11/alphabet.ndjson) joined with and without a space, every filler of 0.." + strconv.Itoa(env.Pick(1, 2)) +
 		" items in each grammatical frame of PipelineUniverse.tla, every leaf statement under every nesting of 1.." + strconv.Itoa(env.Pick(2, 3)) +
-		" compound frames, every def-use flag configuration of spec/C03/PyScopeFlags on 4-block nestings (TLC, exhaustive), seeded spelled trees of spec/C06/PyGrammarGen, seeded TLC draws of 3..8 free items and 2..4 filler items, " +
+		" compound frames, every def-use flag configuration of spec/C03/PyScopeFlags on 4-block nestings (TLC, exhaustive), every string/bytes literal of spec/C11/PipelineLiterals (7 prefixes x 4 quotes x bodies of up to " + strconv.Itoa(env.Pick(2, 3)) + " of 25 pieces), seeded spelled trees of spec/C06/PyGrammarGen, seeded TLC draws of 3..8 free items and 2..4 filler items, " +
 		"and seeded byte/token mutations of every .py file of the repository; each compiled in exec, eval and single mode. " +
 		"distinct_nontrivial counts distinct source texts (SHA-1); evaluations counts py.Compile calls plus parser.LexString comparisons"
 	rep.Exhaustive = false
@@ -958,6 +1024,7 @@ func main() {
 	rep.Extra["sequences_in_frames"] = framedTotal.Load()
 	rep.Extra["sequences_nested_compound_frames"] = nestedTotal.Load()
 	rep.Extra["scope_programs"] = nScope
+	rep.Extra["literals_prefix_x_quote_x_body"] = nLit
 	rep.Extra["grammar_programs"] = nGrammar
 	rep.Extra["repository_files"] = files
 	rep.Extra["mutants"] = mutants
@@ -976,11 +1043,11 @@ func main() {
 		"a compile that exceeds the 10 s watchdog is re-run alone with 30 s before it counts as a hang",
 	}
 	if nestedTotal.Load() == 0 || framedTotal.Load() == 0 || nScope == 0 {
-		common.Inconclusive("property=C11 vacuous run: framed=%d nested=%d sequences, %d scope programs", framedTotal.Load(), nestedTotal.Load(), nScope)
+		common.Vacuous("property=C11 vacuous run: framed=%d nested=%d sequences, %d scope programs", framedTotal.Load(), nestedTotal.Load(), nScope)
 	}
 	for _, k := range []string{"err", "eof", "toks"} {
 		if c.lexClass[k] == 0 {
-			common.Inconclusive("property=C11 vacuous run: PyLex never produced class %q", k)
+			common.Vacuous("property=C11 vacuous run: PyLex never produced class %q", k)
 		}
 	}
 	rep.Finish()
